@@ -17,6 +17,7 @@
  **************************************/
 #include <stdlib.h>
 
+#include "EbVerifHooks.h"
 #include "EbVersion.h"
 #include "EbDefinitions.h"
 #include "EbPictureBufferDesc.h"
@@ -596,6 +597,9 @@ EB_API EbErrorType svt_av1_dec_frame(EbComponentType *svt_dec_component, const u
     uint8_t *    data_start           = (uint8_t *)data;
     uint8_t *    data_end             = (uint8_t *)data + data_size;
     dec_handle_ptr->seen_frame_header = 0;
+#ifdef SVT_AV1_VERIF
+    for (int verif_i = 0; verif_i < 12; verif_i++) dec_handle_ptr->verif_tools[verif_i] = 0;
+#endif
 
     while (data_start < data_end) {
         /*TODO : Remove or move. For Test purpose only */
@@ -628,6 +632,12 @@ EB_API EbErrorType svt_av1_dec_frame(EbComponentType *svt_dec_component, const u
             dec_handle_ptr->frame_header.frame_type);*/
     }
 
+#ifdef SVT_AV1_VERIF
+    {
+        volatile long long *t = dec_handle_ptr->verif_tools;
+        SVT_VERIF_EV("dectools", dec_handle_ptr, "Tools", t[0], t[1], t[2], t[3], t[4], t[5], t[6], t[7], t[8], t[9], t[10], t[11]);
+    }
+#endif
     return return_error;
 }
 
